@@ -154,6 +154,10 @@ func genCase(t *rapid.T) Case {
 			// the caller's config is the two bytes "{}" (what v1.0 packing invents,
 			// or an empty config under the caller's own media type)
 			b.Raw, b.Size = "{}", 2
+			if rapid.Bool().Draw(t, "cfgIsEmptyDescriptor") {
+				// exactly ocispec.DescriptorEmptyJSON, pushed by the caller or not
+				b.MT = mtEmpty
+			}
 		}
 		c.Config = &b
 	}
